@@ -13,18 +13,26 @@ Notation M_run := (run thr_clear_on_catch thr_trylock_busy_result (negb thr_exc_
 Notation M_alone := (alone thr_clear_on_catch).
 
 (* 1. isolation, every schedule: a thread's core (continuation, own collector registry and ledger, own
-   exception record, own TLS, result trace) is what it reaches ALONE after the same number of its own
-   instructions *)
+   exception record, own TLS, result trace) is a function of its OWN program and of the answers its OWN
+   try-once trylock attempts got (hist s; true for every other instruction): it is what the thread reaches
+   ALONE after the same instructions with the same answers *)
 Theorem isolation : forall (ps : list (list op)) (sched : list tid) t l s,
   nth_error (thr (M_run sched (ginit ps))) t = Some (l, s) ->
-  exists p, nth_error ps t = Some p /\ l = M_alone (steps s) (linit t p).
+  exists p, nth_error ps t = Some p /\ l = M_alone (hist s) (linit t p).
 Proof. exact (ThreadsProofs.isolation_core thr_clear_on_catch thr_trylock_busy_result). Qed.
 Print Assumptions isolation.
+
+(* 1b. no try-once section refused (e.g. the program has none): exactly the stand-alone run of `steps s` instructions *)
+Theorem isolation_plain : forall (ps : list (list op)) (sched : list tid) t l s,
+  nth_error (thr (M_run sched (ginit ps))) t = Some (l, s) -> forallb (fun x => x) (hist s) = true ->
+  exists p, nth_error ps t = Some p /\ l = alone_n thr_clear_on_catch (steps s) (linit t p).
+Proof. exact (ThreadsProofs.isolation_plain thr_clear_on_catch thr_trylock_busy_result). Qed.
+Print Assumptions isolation_plain.
 
 (* 2. a finished thread has computed exactly its complete stand-alone result *)
 Theorem isolation_finished : forall (ps : list (list op)) (sched : list tid) t l s,
   nth_error (thr (M_run sched (ginit ps))) t = Some (l, s) -> done l = true ->
-  exists p, nth_error ps t = Some p /\ forall n, steps s <= n -> M_alone n (linit t p) = l.
+  exists p, nth_error ps t = Some p /\ forall h', M_alone (h' ++ hist s) (linit t p) = l.
 Proof. exact (ThreadsProofs.isolation_finished thr_clear_on_catch thr_trylock_busy_result). Qed.
 Print Assumptions isolation_finished.
 
@@ -76,7 +84,7 @@ Theorem join_publishes : forall (ps : list (list op)) (sched sched' : list tid) 
   aborted g' = false -> started s = true -> done l = false -> fatal l = false -> ub s = false ->
   code l = KOp (OPeek u) :: k ->
   done lu = true /\
-  (forall n, steps su <= n -> M_alone n (linit u p) = lu) /\
+  (forall h', M_alone (h' ++ hist su) (linit u p) = lu) /\
   option_map (fun ls => seen (snd ls)) (nth_error (thr (M_step t g')) t) = Some ((u, out lu) :: seen s).
 Proof. exact (ThreadsProofs.join_publishes_gen thr_clear_on_catch thr_trylock_busy_result). Qed.
 Print Assumptions join_publishes.
@@ -86,7 +94,7 @@ Print Assumptions join_publishes.
 Theorem shared_exception_record_refuted : forall c b,
   exists ps sched t,
     match nth_error (thr (run c b true false sched (ginit ps))) t, nth_error ps t with
-    | Some (l, s), Some p => depth (exc l) =? depth (exc (alone c (steps s) (linit t p))) = false
+    | Some (l, s), Some p => depth (exc l) =? depth (exc (alone c (hist s) (linit t p))) = false
     | _, _ => False
     end.
 Proof. exact ThreadsProofs.isolation_refuted_shared. Qed.
@@ -95,7 +103,7 @@ Print Assumptions shared_exception_record_refuted.
 Theorem foreign_tls_walk_refuted : forall c b,
   exists ps sched t,
     match nth_error (thr (run c b false true sched (ginit ps))) t, nth_error ps t with
-    | Some (l, s), Some p => length (tls l) =? length (tls (alone c (steps s) (linit t p))) = false
+    | Some (l, s), Some p => length (tls l) =? length (tls (alone c (hist s) (linit t p))) = false
     | _, _ => False
     end.
 Proof. exact ThreadsProofs.isolation_refuted_foreign_walk. Qed.
@@ -137,3 +145,10 @@ Example increment_nonvacuous :
   exists l s k, nth_error (thr (M_run [0; 1; 1] (ginit [[OSpawn 1; OLock 0; OIncr 0; OUnlock 0]; [OWith 0 [OIncr 0]]]))) 1 = Some (l, s)
                 /\ code l = KStore 0 :: k.
 Proof. vm_compute. do 3 eexists. split; reflexivity. Qed.
+
+(* a refused try-once section: thread 1 skips its section while thread 0 holds the mutex, and still its core is
+   its own program run with that answer *)
+Example tryonce_refused :
+  exists l s, nth_error (thr (M_run [0; 0; 1; 1] (ginit [[OSpawn 1; OLock 0; OYield]; [OTryOnce 0 [OIncr 0]; OEmit 3]]))) 1 = Some (l, s)
+              /\ hist s = [true; false] /\ out l = [EvEmit 3] /\ holding s = [].
+Proof. vm_compute. do 2 eexists. repeat split; reflexivity. Qed.
